@@ -133,7 +133,7 @@ UNIT = dict(
               subst=[(r'\bprotected_pointers\b', '(*protected_pointers_p)', 'vec_ref')], methods={'begin': 'VEC_begin', 'end': 'VEC_end', 'delete_self': 'N_delete_self'},
               calls={'std::binary_search': 'STD_binary_search'}, self_calls={'add_retired_node': 'hp_add_retired_node'},
               must_fire={'call:std::binary_search': 1, 'method:delete_self': 1, 'self_call:add_retired_node': 1}),
-    scan_spec('hp_scan', HPI, 'protected_pointers', 'gather_protected_pointers', 'hp_scan', 'hp_reclaim_nodes',
+    scan_spec('hp_scan', HPI, 'protected_pointers', 'gather_protected_pointers', 'hp_scan', 'HP_RECLAIM_NODES',
               must={'for_each': 1, 'call:std::sort': 1, 'self_call:reclaim_nodes': 2, 'subst:vec_by_ref': 2, 'method:adopt_abandoned_retired_nodes': 1,
                     'method:is_active': 1, 'method:gather_protected_pointers': 1, 'subst:vector_decl': 1, 'reference': 1}),
     td_common(id='hp_dtor', file=HPI, sig=r'~thread_data\(\)', c_sig='static void hp_td_dtor(struct td* self)',
@@ -143,12 +143,67 @@ UNIT = dict(
          c_sig='static void hp_guard_reclaim(struct guard* self, int d)', subst=[(r'allocation_strategy::', 'hp_', 'alloc_strategy')],
          methods={'get': 'GP_get', 'set_deleter': 'N_set_deleter', 'add_retired_node': 'HP_TD_add_retired_node', 'scan': 'TD_scan'}, self_calls={'reset': 'gp_reset'},
          must_fire={'method:add_retired_node': 1, 'method:scan': 1, 'method:set_deleter': 1, 'self_call:reset': 1}),
+    # ---- hazard_eras ----
+    dict(id='he_active_hes', file=HEH, sig=r'static size_t number_of_active_hazard_eras\(\)', c_sig='static size_t he_number_of_active_hazard_eras(void)', must_fire={'A_LOAD': 1}),
+    dict(id='he_threshold', file=HEH, sig=r'static size_t retired_nodes_threshold\(\)', c_sig='static size_t he_retired_nodes_threshold(void)',
+         subst=[(r'\bA\b', 'XV_A', 'A'), (r'\bB\b', 'XV_B', 'B')], calls={'number_of_active_hazard_eras': 'he_number_of_active_hazard_eras'}, must_fire={'subst:A': 1, 'subst:B': 1}),
+    dict(id='he_try_get_era', file=HEI, sig=r'bool try_get_era\(era_t& result\) const',
+         c_sig='static _Bool he_try_get_era(const struct slot* self, uint64_t* result_p)', pre_subst=[CONSTEXPR],
+         subst=[(r'\bresult\b', '(*result_p)', 'result_ref')], types={'era_t': 'uint64_t'}, methods={'mark': 'MP_mark', 'get': 'MP_get'}, members=['value'],
+         must_fire={'A_LOAD': 1, 'method:mark': 1, 'method:get': 1, 'subst:result_ref': 1}),
+    dict(id='he_gather_range', file=HEI, sig=r'static void\s+gather_protected_eras\(std::vector<era_t>& protected_eras, const hazard_era\* begin, const hazard_era\* end\)',
+         c_sig='static void he_gather_range(struct vec* protected_eras_p, const struct slot* begin, const struct slot* end)',
+         subst=[(r'\bera_t\b', 'uint64_t', 'era_t'), (r'\bprotected_eras\b', '(*protected_eras_p)', 'vec_ref')],
+         methods={'try_get_era': 'HE_try_get_era', 'push_back': 'VEC_push_back'}, must_fire={'method:try_get_era': 1, 'method:push_back': 1}),
+    dict(id='he_tcb_begin', file=HEI, sig=r'const hazard_era\* begin\(\) const', which=0, c_sig='static const struct slot* he_tcb_begin(const struct tcb* self)', members=['eras'],
+         post_subst=[(r'self->eras', 'self->pointers', 'eras_member')], must_fire={'member:eras': 1}),
+    dict(id='he_tcb_end', file=HEI, sig=r'const hazard_era\* end\(\) const', which=0, c_sig='static const struct slot* he_tcb_end(const struct tcb* self)', members=['eras'],
+         subst=[(r'Strategy::K', 'XV_K', 'K')], post_subst=[(r'self->eras', 'self->pointers', 'eras_member')], must_fire={'member:eras': 1, 'subst:K': 1}),
+    dict(id='he_tcb_gather', file=HEI, sig=r'void gather_protected_eras\(std::vector<era_t>& protected_eras\) const', which=0,
+         c_sig='static void he_tcb_gather(const struct tcb* self, struct vec* protected_eras_p)', subst=[(r'\bbase::', '', 'base')],
+         methods={'begin': 'HE_TCB_begin', 'end': 'HE_TCB_end'}, calls={'gather_protected_eras': 'he_gather_range'},
+         post_subst=[(r'he_gather_range\(protected_eras,', 'he_gather_range(protected_eras_p,', 'vec_ref')], must_fire={'call:gather_protected_eras': 1, 'subst:vec_ref': 1}),
+    dict(id='he_number_of_hes', file=HEI, sig=r'constexpr size_t number_of_hes\(\) const', c_sig='static size_t he_tcb_number_of_hes(const struct tcb* self)',
+         subst=[(r'Strategy::K', 'XV_K', 'K')], must_fire={'subst:K': 1}),
+    dict(id='he_tcb_abandon', file=HEI, sig=r'void abandon\(\)', which=0, c_sig='static void he_tcb_abandon(struct tcb* self)',
+         subst=[(r'Strategy::number_of_active_hes', 'number_of_active_hes', 'counter'), (r'\bself\(\)\.', 'self->', 'self_fn'),
+                (r'detail::thread_block_list<Derived, detail::deletable_object_with_eras>::entry::abandon\(\)', 'te_abandon(self)', 'base_abandon')],
+         methods={'number_of_hes': 'HE_TCB_number_of_hes'}, must_fire={'A_FSUB': 1, 'subst:base_abandon': 1, 'method:number_of_hes': 1}),
+    td_common(id='he_add_retired_node', file=HEI, sig=r'std::size_t add_retired_node\(detail::deletable_object_with_eras\* p\)', c_sig='static size_t he_add_retired_node(struct td* self, struct node* p)',
+              must_fire={'member:retire_list': 2, 'member:number_of_retired_nodes': 1}),
+    td_common(id='he_reclaim_nodes', file=HEI, sig=r'void reclaim_nodes\(detail::deletable_object_with_eras\* list, const std::vector<era_t>& protected_eras\)',
+              c_sig='static void he_reclaim_nodes(struct td* self, struct node* list, const struct vec* protected_eras_p)',
+              subst=[(r'\bprotected_eras\b', '(*protected_eras_p)', 'vec_ref')], methods={'begin': 'VEC_begin', 'end': 'VEC_end', 'delete_self': 'N_delete_self'},
+              calls={'std::lower_bound': 'STD_lower_bound'}, self_calls={'add_retired_node': 'he_add_retired_node'},
+              must_fire={'call:std::lower_bound': 1, 'method:delete_self': 1, 'self_call:add_retired_node': 1}),
+    scan_spec('he_scan', HEI, 'protected_eras', 'gather_protected_eras', 'he_scan', 'HE_RECLAIM_NODES',
+              must={'for_each': 1, 'call:std::sort': 1, 'call:std::unique': 1, 'method:erase': 1, 'self_call:reclaim_nodes': 2, 'subst:vec_by_ref': 2, 'method:adopt_abandoned_retired_nodes': 1,
+                    'method:is_active': 1, 'method:gather_protected_eras': 1, 'subst:vector_decl': 1, 'reference': 1}),
+    td_common(id='he_dtor', file=HEI, sig=r'~thread_data\(\)', c_sig='static void he_td_dtor(struct td* self)',
+              methods={'abandon_retired_nodes': 'TBL_abandon_retired_nodes', 'release_entry': 'TBL_release_entry'}, self_calls={'scan': 'he_scan'},
+              must_fire={'self_call:scan': 1, 'method:abandon_retired_nodes': 1, 'method:release_entry': 1}),
+    dict(id='he_reclaim', file=HEI, sig=r'void hazard_eras<Traits>::guard_ptr<T, MarkedPtr>::reclaim\(Deleter d\) noexcept',
+         c_sig='static void he_guard_reclaim(struct guard* self, int d)', subst=[(r'allocation_strategy::', 'he_', 'alloc_strategy'), (r'local_thread_data\(\)', 'local_thread_data', 'tls_fn')],
+         methods={'get': 'GP_get', 'set_deleter': 'N_set_deleter', 'add_retired_node': 'HE_TD_add_retired_node', 'scan': 'TD_scan'}, self_calls={'reset': 'gp_reset'},
+         must_fire={'method:add_retired_node': 1, 'method:scan': 1, 'method:set_deleter': 1, 'self_call:reset': 1, 'A_FADD': 1, 'subst:tls_fn': 2}),
   ],
   runs=[
-    dict(id='hp_scan', entry='h_scan', defs={'XV_E': 2, 'XV_K': 2, 'XV_L': 2, 'XV_LA': 1}, unwindset=HPU, cls='shape-complete'),
-    dict(id='hp_scan_int', entry='h_scan_int', mode='INT', defs={'XV_E': 2, 'XV_K': 2, 'XV_L': 2, 'XV_LA': 1}, unwindset=HPU, cls='shape-complete'),
-    dict(id='hp_dtor', entry='h_dtor', defs={'XV_E': 2, 'XV_K': 2, 'XV_L': 2, 'XV_LA': 1}, unwindset=HPU, cls='shape-complete'),
-    dict(id='hp_trigger', entry='h_trigger', cls='unbounded'),
+    dict(id='hp_scan', entry='h_scan', tiers=['quick'], defs=dict(XV_E=2, XV_K=2, XV_L=2, XV_LA=1), unwindset=unw(2, 2, 2, 1, 'hp'), cls='shape-complete', timeout=900,
+         note='SEQ: <=2 entries x 2 slots (every state/word), 0..2 retired + 0..1 abandoned nodes; real scan with real gather/reclaim_nodes/adopt'),
+    dict(id='hp_scan_int', entry='h_scan_int', mode='INT', tiers=['quick'], defs=dict(XV_E=2, XV_K=2, XV_L=2, XV_LA=1), unwindset=unw(2, 2, 2, 1, 'hp'), cls='shape-complete', timeout=900,
+         note='INT: other threads rewrite any slot word and any entry state between any two atomic accesses of the scan'),
+    dict(id='hp_dtor', entry='h_dtor', tiers=['quick'], defs=dict(XV_E=2, XV_K=2, XV_L=2, XV_LA=1), unwindset=unw(2, 2, 2, 1, 'hp'), cls='shape-complete', timeout=900),
+    dict(id='hp_trigger', entry='h_trigger', cls='unbounded', note='all 2^60 counter values / 2^32 active-slot counts; A, B as compiled (defaults 2, 100)'),
+    dict(id='he_scan', entry='h_scan', tiers=['quick'], defs=dict(XV_HE=1, XV_E=2, XV_K=2, XV_L=2, XV_LA=1), unwindset=unw(2, 2, 2, 1, 'he'), cls='shape-complete', timeout=900),
+    dict(id='he_scan_int', entry='h_scan_int', mode='INT', tiers=['quick'], defs=dict(XV_HE=1, XV_E=2, XV_K=2, XV_L=2, XV_LA=1), unwindset=unw(2, 2, 2, 1, 'he'), cls='shape-complete', timeout=900),
+    dict(id='he_dtor', entry='h_dtor', tiers=['quick'], defs=dict(XV_HE=1, XV_E=2, XV_K=2, XV_L=2, XV_LA=1), unwindset=unw(2, 2, 2, 1, 'he'), cls='shape-complete', timeout=900),
+    dict(id='he_trigger', entry='h_trigger', defs=dict(XV_HE=1), cls='unbounded'),
+    dict(id='hp_scan_3', entry='h_scan', tiers=['thorough'], defs=dict(XV_E=3, XV_K=3, XV_L=3, XV_LA=2), unwindset=unw(3, 3, 3, 2, 'hp'), cls='shape-complete', timeout=3000),
+    dict(id='hp_scan_int_3', entry='h_scan_int', mode='INT', tiers=['thorough'], defs=dict(XV_E=3, XV_K=3, XV_L=3, XV_LA=2), unwindset=unw(3, 3, 3, 2, 'hp'), cls='shape-complete', timeout=3000),
+    dict(id='hp_dtor_3', entry='h_dtor', tiers=['thorough'], defs=dict(XV_E=3, XV_K=3, XV_L=3, XV_LA=2), unwindset=unw(3, 3, 3, 2, 'hp'), cls='shape-complete', timeout=3000),
+    dict(id='he_scan_3', entry='h_scan', tiers=['thorough'], defs=dict(XV_HE=1, XV_E=3, XV_K=3, XV_L=3, XV_LA=2), unwindset=unw(3, 3, 3, 2, 'he'), cls='shape-complete', timeout=3000),
+    dict(id='he_scan_int_3', entry='h_scan_int', mode='INT', tiers=['thorough'], defs=dict(XV_HE=1, XV_E=3, XV_K=3, XV_L=3, XV_LA=2), unwindset=unw(3, 3, 3, 2, 'he'), cls='shape-complete', timeout=3000),
+    dict(id='he_dtor_3', entry='h_dtor', tiers=['thorough'], defs=dict(XV_HE=1, XV_E=3, XV_K=3, XV_L=3, XV_LA=2), unwindset=unw(3, 3, 3, 2, 'he'), cls='shape-complete', timeout=3000),
   ],
   obligations={},
   canaries=[],
